@@ -256,7 +256,7 @@ def emit(src):
     out.append('(* ignore_color_lut_data: group == g and elem in (...) *)')
     out.append('Definition lut_group : N := %s.' % cN(lgrp))
     out.append('Definition lut_elems : list N := %s.' % clist(cN(x) for x in lelems))
-    out.append('(* ignore_private: group %% m == r *)')
+    out.append('(* ignore_private: group mod m == r *)')
     out.append('Definition private_mod : N := %s.' % cN(pm))
     out.append('Definition private_rem : N := %s.' % cN(pr))
     out.append('(* default_ignore_rules, by function name, in source order *)')
